@@ -144,6 +144,13 @@ impl Compiler {
             Expression::Parenthesized(inner, _) => {
                 self.compile_expression_with_inferred_name(inner, dst, inferred_name)
             }
+            // Type assertions and non-null assertions are erased: `(() => 1) as F` is named like `() => 1`
+            Expression::TypeAssertion(ta) => {
+                self.compile_expression_with_inferred_name(&ta.expression, dst, inferred_name)
+            }
+            Expression::NonNull(nn) => {
+                self.compile_expression_with_inferred_name(&nn.expression, dst, inferred_name)
+            }
             // For all other expressions, compile normally
             _ => self.compile_expression(expr, dst),
         }
@@ -523,7 +530,7 @@ impl Compiler {
                 // typeof needs special handling for identifiers:
                 // typeof undeclaredVar should return "undefined", not throw ReferenceError
                 let src = self.builder.alloc_register()?;
-                if let Expression::Identifier(id) = &*unary.argument {
+                if let Expression::Identifier(id) = unary.argument.without_type_wrappers() {
                     // Use TryGetVar to get undefined for undeclared variables
                     let name_idx = self.builder.add_string(id.name.cheap_clone())?;
                     self.builder.emit(Op::TryGetVar {
@@ -571,7 +578,7 @@ impl Compiler {
         expr: &Expression,
         dst: Register,
     ) -> Result<(), JsError> {
-        match expr {
+        match expr.without_type_wrappers() {
             Expression::Member(member) => {
                 let obj_reg = self.builder.alloc_register()?;
                 self.compile_expression(&member.object, obj_reg)?;
@@ -1062,7 +1069,7 @@ impl Compiler {
         update: &crate::ast::UpdateExpression,
         dst: Register,
     ) -> Result<(), JsError> {
-        match update.argument.as_ref() {
+        match update.argument.without_type_wrappers() {
             Expression::Identifier(id) => {
                 let name_idx = self.builder.add_string(id.name.cheap_clone())?;
 
@@ -1365,7 +1372,7 @@ impl Compiler {
         expr: &Expression,
         dst: Register,
     ) -> Result<Vec<super::JumpPlaceholder>, JsError> {
-        match expr {
+        match expr.without_type_wrappers() {
             Expression::Member(member) => self.compile_member_expression_optional(member, dst),
             Expression::Call(call) => self.compile_call_expression_optional(call, dst),
             Expression::OptionalChain(inner) => {
@@ -1399,7 +1406,7 @@ impl Compiler {
         let obj_reg = self.builder.alloc_register()?;
 
         // If the object is itself a member/call expression, handle it recursively
-        let inner_jumps = match member.object.as_ref() {
+        let inner_jumps = match member.object.without_type_wrappers() {
             Expression::Member(inner_member) => {
                 self.compile_member_expression_optional(inner_member, obj_reg)?
             }
@@ -1476,12 +1483,12 @@ impl Compiler {
         let mut short_circuit_jumps = Vec::new();
 
         // Check if this is a method call (obj.method() or obj?.method())
-        if let Expression::Member(member) = call.callee.as_ref() {
+        if let Expression::Member(member) = call.callee.without_type_wrappers() {
             // Compile the object
             let obj_reg = self.builder.alloc_register()?;
 
             // Recursively handle nested optional chains in the object
-            let inner_jumps = match member.object.as_ref() {
+            let inner_jumps = match member.object.without_type_wrappers() {
                 Expression::Member(inner_member) => {
                     self.compile_member_expression_optional(inner_member, obj_reg)?
                 }
@@ -1650,7 +1657,7 @@ impl Compiler {
             let callee_reg = self.builder.alloc_register()?;
 
             // Handle nested optional chains in callee
-            let inner_jumps = match call.callee.as_ref() {
+            let inner_jumps = match call.callee.without_type_wrappers() {
                 Expression::Member(inner_member) => {
                     self.compile_member_expression_optional(inner_member, callee_reg)?
                 }
@@ -1697,12 +1704,12 @@ impl Compiler {
         expr: &Rc<Expression>,
     ) -> Option<(&Expression, &crate::ast::MemberExpression)> {
         // Unwrap Parenthesized expression
-        let inner = match expr.as_ref() {
+        let inner = match expr.without_type_wrappers() {
             Expression::Parenthesized(inner_expr, _) => inner_expr,
             _ => return None,
         };
 
-        match inner.as_ref() {
+        match inner.without_type_wrappers() {
             // Case 1: (a?.b) - parenthesized optional chain
             Expression::OptionalChain(opt) => {
                 // Check if the base is a Member expression
@@ -1737,7 +1744,7 @@ impl Compiler {
         }
 
         // Handle super.method() or super[expr]() call
-        if let Expression::Member(member) = call.callee.as_ref()
+        if let Expression::Member(member) = call.callee.without_type_wrappers()
             && matches!(member.object.as_ref(), Expression::Super(_))
         {
             // Super method call
@@ -1802,7 +1809,7 @@ impl Compiler {
         // Check for method call pattern: obj.method(args) or obj[expr](args)
         // IMPORTANT: Callee must be evaluated BEFORE arguments per JS spec.
         // If accessing the method throws, arguments should not be evaluated.
-        if let Expression::Member(member) = call.callee.as_ref() {
+        if let Expression::Member(member) = call.callee.without_type_wrappers() {
             match &member.property {
                 MemberProperty::Identifier(method_name) => {
                     // Compile object first (may throw if intermediate access is undefined)
@@ -1893,7 +1900,7 @@ impl Compiler {
 
         // Check for direct eval call: eval(...)
         // Direct eval has access to the lexical scope, unlike indirect eval.
-        if let Expression::Identifier(id) = call.callee.as_ref()
+        if let Expression::Identifier(id) = call.callee.without_type_wrappers()
             && id.name.as_str() == "eval"
             && call.arguments.len() <= 1
             && !self.has_spread_arguments(&call.arguments)
@@ -2339,7 +2346,7 @@ impl Compiler {
         let tag_reg = self.builder.alloc_register()?;
 
         // Check if it's a method call (obj.tag`template`)
-        let this_reg = if let Expression::Member(member) = tagged.tag.as_ref() {
+        let this_reg = if let Expression::Member(member) = tagged.tag.without_type_wrappers() {
             // Compile object for `this`
             let obj_reg = self.builder.alloc_register()?;
             self.compile_expression(&member.object, obj_reg)?;
